@@ -37,7 +37,7 @@ class Inconclusive(Exception):
 
 
 class Clause(object):
-    def __init__(self, name, strategy, run, quick, thorough, rule, exhaustive=None, watchdog=60, crossproc=False):
+    def __init__(self, name, strategy, run, quick, thorough, rule, exhaustive=None, watchdog=60, crossproc=False, external=None):
         self.name = name
         self.strategy = strategy        # callable(tier) -> hypothesis strategy of JSON-able cases
         self.run = run                  # callable(case) -> info dict {"nt":bool,"cls":[..],"out":..}
@@ -45,6 +45,7 @@ class Clause(object):
         self.rule = rule
         self.exhaustive = exhaustive    # callable(tier) -> (description, iterable of cases) or None
         self.watchdog = watchdog
+        self.external = external        # callable(tier, widx, nworkers, vseed, workdir) -> dict: a driver outside Hypothesis (coverage-guided fuzzing)
         self.crossproc = crossproc      # same cases in every worker; result signatures compared across hash seeds by the parent
 
 
@@ -218,6 +219,31 @@ class ClauseRunner(object):
         except BaseException as e:
             self.errors.append("harness error in exhaustive tier of %s: %s" % (self.clause.name, "".join(traceback.format_exception(type(e), e, e.__traceback__))[-1500:]))
         self.stats["exhaustive"] = {"bound": desc, "cases_this_worker": count}
+
+    # -- external driver (coverage-guided fuzzer) ---------------------------------------
+    def run_external(self, workdir):
+        if self.clause.external is None:
+            return
+        try:
+            res = self.clause.external(self.tier, self.widx, self.nworkers, self.vseed, workdir)
+        except BaseException as e:
+            self.errors.append("external driver of %s failed: %s" % (self.clause.name, "".join(traceback.format_exception(type(e), e, e.__traceback__))[-1200:]))
+            return
+        if not res:
+            return
+        st = self.stats
+        st["evaluations"] += res.get("evaluations", 0)
+        for k, v in res.get("classes", {}).items():
+            st["classes"][k] = st["classes"].get(k, 0) + v
+        for d in res.get("nt_digests", []):
+            if d not in self.nt_digests:
+                self.nt_digests.add(d)
+                st["nontrivial"] += 1
+        self.samples.extend(res.get("samples", [])[: max(0, 3 - len(self.samples))])
+        for fl in res.get("failures", []):
+            if fl["bucket"] not in self.excluded:
+                self.failures.append(fl)
+                self.excluded.add(fl["bucket"])
 
     def result(self):
         return {"clause": self.clause.name, "stats": self.stats, "nt_digests": sorted(self.nt_digests),
